@@ -220,6 +220,7 @@ func (p *pcall) stillIntact() (string, bool) {
 // C03: packed and gzip-compressed event streams carry exactly the given entries, whatever
 // was built before (recycled buffers / compressors), on this or other goroutines.
 func C03(c *core.Ctx) {
+	setFine(c) // fine-grained phase: the same run with LIFO pools (every Get returns the object put back last)
 	r := c.Rng
 	for h := 0; h < c.N(60, 1500); h++ {
 		n := 1 + r.Intn(8)
@@ -265,6 +266,7 @@ func C03(c *core.Ctx) {
 
 // C07: returned messages and byte slices are independent values.
 func C07(c *core.Ctx) {
+	setFine(c) // fine-grained phase: the same run with LIFO pools
 	r := c.Rng
 	// (a) histories: every value returned so far is re-compared after every later call
 	for h := 0; h < c.N(80, 2000); h++ {
